@@ -1,8 +1,8 @@
 (* Lattice/ColorBounded.v — P<=B theorems for the colour 6.6.6 family, closed by vm_compute.
    Bounds: validity / shapes / supports for every odd size 3..11; flatten bijection for every odd size 3..21. *)
 From Coq Require Import List Bool Arith ZArith Lia.
-From QV Require Import Core.Bits Core.Pauli Core.Symp Core.Code Generated.LatticeArith
-  Lattice.RotPlanar Lattice.RotPlanarBounded Lattice.Color.
+From QV Require Import Core.Bits Core.Pauli Core.Symp Core.Code Core.Span Core.Rank Core.Dist Core.DistCSS
+  Generated.LatticeArith Lattice.RotPlanar Lattice.RotPlanarBounded Lattice.Color.
 Import ListNotations.
 Local Open Scope Z_scope.
 
@@ -116,3 +116,38 @@ Example color_ex_5 : validate (color_code 5) = VOk /\ color_n_k_d 5 = (19, 1, 5)
   c6_plaquette_indices 3 = [(1, 1); (2, 0); (3, 2)] /\ c6_flatten (6, 6) = 18 /\
   c6_site 3 pX (1, 1) (c6_identity 3) = None.
 Proof. vm_compute. auto 10. Qed.
+
+(* ---- GF(2) ranks ---- *)
+Definition c6_rank_b (s : Z) : bool := rc_rank_b (color_n_k_d s) (color_code s).
+Lemma color_rank_upto_11_b : forallb c6_rank_b (c6_sizes 11) = true.
+Proof. vm_compute. reflexivity. Qed.
+Theorem color_rank_upto_11 : forall size, 3 <= size <= 11 -> size mod 2 = 1 -> rc_rank (color_n_k_d size) (color_code size).
+Proof. intros size Hs Ho. apply rc_rank_b_spec. exact (c6_upto 11 _ color_rank_upto_11_b size Hs Ho). Qed.
+
+(* ---- C08: advertised d = size is the minimum distance, sizes 3 and 5 (size 7: 2 x 2.8M supports, not in-kernel) ---- *)
+Definition c6_dist_b (s : Z) : bool :=
+  rc_dist_b (color_n_k_d s) (color_code s) (hd [] (c6_logical_xs s)) (hd [] (c6_logical_zs s)).
+Lemma color_distance_upto_5_b : forallb c6_dist_b (c6_sizes 5) = true.
+Proof. vm_compute. reflexivity. Qed.
+Theorem color_distance_upto_5 : forall size, 3 <= size <= 5 -> size mod 2 = 1 -> rc_dist (color_n_k_d size) (color_code size).
+Proof.
+  intros size Hs Ho. eapply rc_dist_b_spec. exact (c6_upto 5 _ color_distance_upto_5_b size Hs Ho).
+Qed.
+Definition color_distance_statement : Prop := forall size, 3 <= size -> size mod 2 = 1 ->
+  rc_dist (color_n_k_d size) (color_code size).
+Definition color_distance_partial := color_distance_upto_5.
+
+(* ---- full statements (all odd sizes) and the proved parts ---- *)
+Definition color_valid_statement : Prop := forall size, 3 <= size -> size mod 2 = 1 ->
+  validate (color_code size) = VOk /\ rc_shape (color_n_k_d size) (color_code size) 0.
+Theorem color_valid_partial : forall size, 3 <= size <= 11 -> size mod 2 = 1 ->
+  validate (color_code size) = VOk /\ rc_shape (color_n_k_d size) (color_code size) 0.
+Proof.
+  intros size Hs Ho. split; [|now apply color_shapes_upto_11].
+  pose proof (c6_upto 11 _ color_valid_upto_11_b size Hs Ho) as H. unfold c6_valid_b, validb in H.
+  destruct (validate (color_code size)); try discriminate. reflexivity.
+Qed.
+Definition color_flatten_statement : Prop := forall size, 3 <= size -> size mod 2 = 1 ->
+  length (c6_site_indices size) = c6_n size /\
+  (forall i d, (i < c6_n size)%nat -> Z.to_nat (c6_flatten (nth i (c6_site_indices size) d)) = i).
+Definition color_flatten_partial := color_flatten_bijective_upto_21.
